@@ -6,9 +6,10 @@ Open Scope N_scope.
 Section Loop.
 Variable crc : N -> N.
 Variable delcrc : N.
+Variable ka kb : N.
 
-Notation Inv := (Inv crc delcrc).
-Notation Inv0 := (Inv0 crc delcrc).
+Notation Inv := (Inv crc delcrc ka kb).
+Notation Inv0 := (Inv0 crc delcrc ka kb).
 Notation Snap := (Snap crc delcrc).
 Notation DocInv := (DocInv crc delcrc).
 
